@@ -32,6 +32,7 @@ Print Assumptions C13_window_bound.
 
 Theorem C13_window_is_ten : maxRequestedBlocks = 10.
 Proof. exact window_is_ten. Qed.
+Print Assumptions C13_window_is_ten.
 
 (* the buffered-byte count returns to zero whenever no block is buffered, and only requested
    entries ever hold a body *)
